@@ -265,6 +265,8 @@ impl AbstractTree for Tree {
         let config = self.tree_config();
         let mut versions = self.get_version_history_lock();
 
+        let old_version = versions.latest_version().version;
+
         versions.upgrade_version(
             &config.path,
             |v| {
@@ -276,7 +278,16 @@ impl AbstractTree for Tree {
             },
             &config.seqno,
             &config.visible_seqno,
-        )
+        )?;
+
+        // NOTE: The tables of the replaced version are obsolete now (the empty version is
+        // persisted), so their files can go as soon as the last reader (e.g. a snapshot on
+        // an older version) lets go of them - otherwise they linger until the next recovery
+        for table in old_version.iter_tables() {
+            table.mark_as_deleted();
+        }
+
+        Ok(())
     }
 
     #[doc(hidden)]
